@@ -445,7 +445,7 @@ pub struct Field {
     pub fill: u8,
 }
 
-pub const FIELDS: [Field; 8] = [
+pub const FIELDS: [Field; 9] = [
     Field { name: "method", entry: Entry::ReqCfg, cfg: 0, pre: b"", post: b" / HTTP/1.1\r\n\r\n", fill: b'A' },
     Field { name: "target", entry: Entry::ReqCfg, cfg: 0, pre: b"GET ", post: b" HTTP/1.1\r\n\r\n", fill: b'/' },
     Field { name: "header-name", entry: Entry::ReqCfg, cfg: 0, pre: b"GET / HTTP/1.1\r\n", post: b": v\r\n\r\n", fill: b'n' },
@@ -454,6 +454,7 @@ pub const FIELDS: [Field; 8] = [
     Field { name: "header-value", entry: Entry::RespCfg, cfg: C_FOLDING | C_IGNORE_RESP, pre: b"HTTP/1.1 200 OK\r\nN:", post: b"\n\n", fill: b'w' },
     Field { name: "reason", entry: Entry::RespCfg, cfg: 0, pre: b"HTTP/1.1 200 ", post: b"\r\n\r\n", fill: b'r' },
     Field { name: "chunk-ext", entry: Entry::Chunk, cfg: 0, pre: b"1;", post: b"\r\n", fill: b'e' },
+    Field { name: "chunk-digits", entry: Entry::Chunk, cfg: 0, pre: b"", post: b"\r\n", fill: b'1' },
 ];
 
 fn lane_phase_inputs(f: &Field, lmax: usize, g: &mut dyn FnMut(&[u8])) {
@@ -806,9 +807,9 @@ pub fn add_field_prefix_sweep(p: &mut Plan, q: bool, backends: &[Backend]) {
                 }));
             }
         }
-        p.phases.push(Phase { label: format!("S2b: every prefix of 8 single-field messages, L≤{} × position(step {}) × 6 bytes", lmax, step), backend: b, tasks });
+        p.phases.push(Phase { label: format!("S2b: every prefix of 9 single-field messages, L≤{} × position(step {}) × 6 bytes", lmax, step), backend: b, tasks });
     }
-    p.bounds.push(format!("S2b prefixes: 8 fields × run length 0..={} × offending position (step {}) × bytes {{filler, 7F, 00, SP, HTAB, CR}} × every split point inside and after the field, backends {:?}", lmax, step, backends.iter().map(|b| b.name()).collect::<Vec<_>>()));
+    p.bounds.push(format!("S2b prefixes: 9 fields × run length 0..={} × offending position (step {}) × bytes {{filler, 7F, 00, SP, HTAB, CR}} × every split point inside and after the field, backends {:?}", lmax, step, backends.iter().map(|b| b.name()).collect::<Vec<_>>()));
 }
 
 pub fn add_lane_phase(p: &mut Plan, q: bool, backends: &[Backend]) {
@@ -816,7 +817,7 @@ pub fn add_lane_phase(p: &mut Plan, q: bool, backends: &[Backend]) {
     for &b in backends {
         p.phases.push(Phase { label: format!("S2b: lane-phase sweep, {} fields × L≤{} × position × 256 values", FIELDS.len(), lmax), backend: b, tasks: lane_phase_tasks(&FIELDS, lmax, b) });
     }
-    p.bounds.push(format!("S2b: fields method/target/header-name(2)/header-value(2)/reason/chunk-ext, run length 0..={}, every position, all 256 values, backends {:?}", lmax, backends.iter().map(|b| b.name()).collect::<Vec<_>>()));
+    p.bounds.push(format!("S2b: fields method/target/header-name(2)/header-value(2)/reason/chunk-ext/chunk-digits, run length 0..={}, every position, all 256 values, backends {:?}", lmax, backends.iter().map(|b| b.name()).collect::<Vec<_>>()));
 }
 
 pub fn add_field_sweeps(p: &mut Plan, q: bool, backends: &[Backend], names: &[&str]) {
@@ -936,6 +937,11 @@ pub fn add_chunk_sweeps(p: &mut Plan, q: bool) {
     }));
     let ext = FIELDS[7];
     tasks.extend(lane_phase_tasks(&[ext], lmax, Backend::Native));
+    // every byte value at every position of a run of 0..=20 digits
+    tasks.extend(lane_phase_tasks(&[FIELDS[8]], 20, Backend::Native));
+    // and of the chunk templates
+    let cts: Vec<Template> = templates().into_iter().filter(|t| t.kind == TKind::Chunk).collect();
+    tasks.extend(mutation_tasks(&cts, Backend::Native, 0));
     p.phases.push(Phase { label: format!("S2c: chunk digit counts 0..=20 × 10 boundary patterns × 12 terminators; extension L≤{} × position × 256 values", lmax), backend: Backend::Native, tasks });
     p.bounds.push(format!("S2c: chunk size digit counts 0..=20, patterns 0…0 f…f F…F 9…9 10…0 7f…f 80…0 0…01 mixed 0f…f, 12 terminator shapes; extension run 0..={} × position × 256 values", lmax));
 }
@@ -1091,7 +1097,7 @@ pub fn add_backend_agreement(p: &mut Plan, q: bool) {
         Backend::Native.force();
     });
     p.phases.push(Phase { label: "C13: compare per-piece digests across AVX2 / SSE4.2 / scalar".into(), backend: Backend::Native, tasks: vec![cmp] });
-    p.bounds.push(format!("shared corpus: S2b lane-phase sweeps (8 fields × L≤{} × position × 256 values), S2a mutants of {} templates, χ_17/χ_33 strings Σ(11)^4 in request and response heads; each under forced AVX2, SSE4.2 and scalar runtime backends", if q { 70 } else { 100 }, quick_templates(q).len()));
+    p.bounds.push(format!("shared corpus: S2b lane-phase sweeps (9 fields × L≤{} × position × 256 values), S2a mutants of {} templates, χ_17/χ_33 strings Σ(11)^4 in request and response heads; each under forced AVX2, SSE4.2 and scalar runtime backends", if q { 70 } else { 100 }, quick_templates(q).len()));
 }
 
 /// Alignment: the same input placed at every start alignment 0..31 (and both guard-flush
@@ -1151,7 +1157,7 @@ pub fn add_alignment_agreement(p: &mut Plan, q: bool) {
             }
         }));
     }
-    p.phases.push(Phase { label: format!("C13: 8 fields × L≤{} × 4 offending-byte shapes × 42 placements (start alignment 0..31, start-flush, end-flush, 8 with in-class bytes around the buffer)", lmax), backend, tasks });
+    p.phases.push(Phase { label: format!("C13: 9 fields × L≤{} × 4 offending-byte shapes × 42 placements (start alignment 0..31, start-flush, end-flush, 8 with in-class bytes around the buffer)", lmax), backend, tasks });
   }
     p.bounds.push(format!("alignment (under each forced backend avx2 / sse4.2 / scalar): field run lengths 0..={} × 4 shapes × start alignments 0..=31 + both guard-flush placements", lmax));
 }
